@@ -753,7 +753,8 @@ class Doc:
                     b.span = (gs, pos[0])
                 else:
                     pr_binding(b, ind + 1)
-                if rng.random() < 0.1 and not (isinstance(b, Group) and b.notation == "grouped"):
+                if rng.random() < 0.1 and not (b is not None and isinstance(b, Group) and b.notation == "grouped") \
+                        and not (b is not None and not isinstance(b, Group) and b.src.rstrip().endswith("}")):
                     emit(";")
             for c in o.children:
                 nl(ind + 1)
